@@ -124,9 +124,10 @@ def case(ctx, rnd, i):
         b = min(n, a + rnd.choice([0, 1, 2, 3, 5, 8, 13, n]))
         if marky and rnd.random() < 0.4:
             a, b = rnd.randint(0, min(3, n)), n
-        if has_box:
+        if has_box and op in ("add_mark", "set_block_type"):
             # inline nodes with content: upstream's add_mark / set_block_type treat them in ways the
-            # simple token law does not describe; only the removal clause is judged on such documents
+            # simple token law does not describe; of the range operations only the removal clause is
+            # judged on such documents (node-level operations are judged as everywhere)
             op = "remove_mark"
         tr = Transform(d)
         ctx.count("ops")
@@ -311,7 +312,7 @@ def case(ctx, rnd, i):
                 continue
             ctx.cover([sid, op, shape, min(b - a, 3) if op in ("add_mark", "remove_mark") else None], nontrivial=not (op in ("add_mark", "remove_mark") and a == b))
             continue
-        if has_box:
+        if has_box and op == "remove_mark":
             bad_tok = None
             if [strip_marks(t) for t in new] != [strip_marks(t) for t in tk]:
                 ctx.violation("structure-changed", "remove_mark changed text or structure", det, mech)
